@@ -117,13 +117,21 @@ Proof.
     split; [rewrite app_length; do 3 f_equal; lia|]. split; [assumption|]. rewrite V', V1, app_assoc. reflexivity.
 Qed.
 
-Theorem sb_step_refines : forall o b, sb_wf b -> sb_op_ok o ->
+(* the protocol of prepare/commit, in the state where it is used: the client writes no more bytes than the span
+   that prepare(n) actually returned holds (that span has capacity - size - 1 >= n bytes) *)
+Definition sb_op_ok_at (b : sb) (o : bop) : Prop :=
+  match o with
+  | BPwc n xs => forall p, sb_prepare n b = Ok p -> length xs <= snd p
+  | _ => True
+  end.
+
+Theorem sb_step_refines_at : forall o b, sb_wf b -> sb_op_ok_at b o ->
   match by_step o (sb_view b) with
   | Ok (l', r) => exists b', sb_step o b = Ok (b', r) /\ sb_wf b' /\ sb_view b' = l'
   | Trap t => sb_step o b = Trap t
   end.
 Proof.
-  intros o b W OK. destruct o; cbn [by_step sb_step]; cbn [sb_op_ok] in OK; try contradiction.
+  intros o b W OK. destruct o; cbn [by_step sb_step]; cbn [sb_op_ok_at] in OK; try contradiction.
   - (* write *)
     unfold sb_write. destruct (Nat.eqb_spec (length xs) 0) as [E|E].
     + cbn [rbind]. apply length_zero_iff_nil in E. subst xs. rewrite app_nil_r. eauto.
@@ -146,7 +154,8 @@ Proof.
       rewrite repeat_length in W'', V''.
       eexists; split; [reflexivity|]. split; [assumption|]. rewrite V'', V'. reflexivity.
   - (* prepare / write into the span / commit *)
-    unfold sb_prepare_write_commit. destruct (sb_prepare_ok n b W) as (k & -> & A & B). cbn [rbind fst snd].
+    unfold sb_prepare_write_commit. destruct (sb_prepare_ok n b W) as (k & E & A & B).
+    specialize (OK _ E). cbn [snd] in OK. rewrite E. cbn [rbind fst snd].
     destruct (Nat.ltb_spec (length (sbdata b) + k - sbsize b - 1) (length xs)); [lia|].
     unfold sb_poke; cbn [sbdata sbsize]. rewrite app_length, repeat_length.
     destruct (Nat.leb_spec (sbsize b + length xs) (length (sbdata b) + k)); [|lia]. cbn [rbind].
@@ -219,6 +228,21 @@ Proof.
   - (* write(a1, a2, ...) *)
     destruct (sb_write_parts_ok parts 0 b W) as (b' & -> & W' & V'). eauto.
 Qed.
+
+(* the static sufficient condition: at most the n bytes asked for *)
+Lemma sb_op_ok_static : forall o b, sb_wf b -> sb_op_ok o -> sb_op_ok_at b o.
+Proof.
+  intros o b W OK. destruct o; cbn [sb_op_ok sb_op_ok_at] in *; auto.
+  intros p E. destruct (sb_prepare_ok n b W) as (k & E' & A & B). rewrite E' in E. inversion E; subst p. cbn [snd]. lia.
+Qed.
+
+Theorem sb_step_refines : forall o b, sb_wf b -> sb_op_ok o ->
+  match by_step o (sb_view b) with
+  | Ok (l', r) => exists b', sb_step o b = Ok (b', r) /\ sb_wf b' /\ sb_view b' = l'
+  | Trap t => sb_step o b = Trap t
+  end.
+Proof. intros o b W OK. apply sb_step_refines_at; [assumption|apply sb_op_ok_static; assumption]. Qed.
+
 
 Fixpoint sb_run (ops : list bop) (b : sb) : res (sb * list bret) :=
   match ops with
@@ -311,3 +335,50 @@ Proof.
     destruct (Nat.leb_spec i j); [reflexivity|lia].
   - destruct (Nat.leb_spec i (length s)); destruct (Nat.leb_spec j (length s)); destruct (Nat.leb_spec i j); cbn; try reflexivity; lia.
 Qed.
+
+(* ---- span.nelua: the fat-pointer implementation refines the list view.  A span whose window lies inside the
+   storage (sp_wf) answers s[i] and s:sub(i,j) exactly as the list of its elements does: the check stops every index
+   outside the window with 'index out of range', every accepted access reads a cell INSIDE the window (never
+   TrapMem), and the span returned by sub is again inside the storage, inside the parent window, and views the
+   expected sub-list - so the statement composes through nested sub-spans. *)
+Definition sp_wf {T} (mem : list T) (s : spanw) : Prop := sp_off s + sp_size s <= length mem.
+
+Lemma sp_view_len : forall T (mem : list T) s, sp_wf mem s -> length (sp_view T mem s) = sp_size s.
+Proof. intros T mem s W. unfold sp_view, sp_wf in *. rewrite firstn_length, skipn_length. lia. Qed.
+
+Lemma sp_view_nth : forall T (mem : list T) s i, i < sp_size s ->
+  nth_error (sp_view T mem s) i = nth_error mem (sp_off s + i).
+Proof.
+  intros T mem s i H. unfold sp_view. rewrite nthe_firstn. destruct (Nat.ltb_spec i (sp_size s)); [|lia].
+  apply nthe_skipn.
+Qed.
+
+Theorem span_window_at : forall T (mem : list T) s i, sp_wf mem s ->
+  spw_at T i mem s = span_at T i (sp_view T mem s).
+Proof.
+  intros T mem s i W. unfold spw_at, span_at. destruct (Nat.ltb_spec i (sp_size s)).
+  - rewrite (sp_view_nth T mem s i H). unfold sget.
+    destruct (nth_error mem (sp_off s + i)) eqn:E; [reflexivity|]. apply nth_error_None in E. unfold sp_wf in W. lia.
+  - rewrite (nthe_beyond _ (sp_view T mem s) i); [reflexivity|]. rewrite sp_view_len by assumption. assumption.
+Qed.
+
+Theorem span_window_sub : forall T (mem : list T) s i j, sp_wf mem s ->
+  match span_sub T i j (sp_view T mem s) with
+  | Ok l => exists s', spw_sub i j s = Ok s' /\ sp_wf mem s' /\ sp_view T mem s' = l /\
+                       (sp_size s' = 0 \/ (sp_off s <= sp_off s' /\ sp_off s' + sp_size s' <= sp_off s + sp_size s))
+  | Trap t => spw_sub i j s = Trap t
+  end.
+Proof.
+  intros T mem s i j W. unfold span_sub, spw_sub. rewrite (sp_view_len T mem s W).
+  destruct ((i <=? sp_size s) && (j <=? sp_size s) && (i <=? j)) eqn:G; [|reflexivity].
+  apply andb_true_iff in G. destruct G as [G G3]. apply andb_true_iff in G. destruct G as [G1 G2].
+  apply Nat.leb_le in G1, G2, G3. unfold sp_wf in *.
+  destruct (Nat.eqb_spec (sp_size s) 0) as [Z|NZ].
+  - exists (mkspan 0 0). split; [reflexivity|]. cbn [sp_off sp_size]. split; [lia|]. split; [|left; reflexivity].
+    unfold sp_view. cbn [sp_off sp_size]. replace (j - i) with 0 by lia. reflexivity.
+  - exists (mkspan (sp_off s + i) (j - i)). split; [reflexivity|]. cbn [sp_off sp_size]. split; [lia|]. split; [|right; lia].
+    unfold sp_view. cbn [sp_off sp_size]. apply nth_error_ext; intro k. rewrite !nthe_firstn.
+    destruct (Nat.ltb_spec k (j - i)); [|reflexivity]. rewrite !nthe_skipn, nthe_firstn.
+    destruct (Nat.ltb_spec (i + k) (sp_size s)); [|lia]. rewrite nthe_skipn. f_equal. lia.
+Qed.
+
